@@ -350,6 +350,152 @@ def temporalCumulation (S : Sym α) (kind : CumKind) (by_ : ShiftBy) (initial : 
 
 end
 
+/-! ### The shift argument as the caller passes it (Python `int`, `float`, keyword string, other string) -/
+
+/-- what the `shift` argument can be: a Python `int`, a `float` (exact value as a rational), one of the four keywords,
+or any other string -/
+inductive ShiftArg where
+  | int (k : Int)
+  | float (q : Rat)
+  | kw (b : ShiftBy)
+  | otherString
+  deriving Repr
+
+/-- `_catch_invalid_shift`: `not isinstance(shift, str) and (int(shift) != shift or shift >= 0)` raises -/
+def ShiftArg.invalid : ShiftArg → Bool
+  | .int k => decide (0 ≤ k)
+  | .float q => decide (q.den ≠ 1) || decide (0 ≤ q)
+  | .kw _ => false
+  | .otherString => false
+
+section
+variable {α : Type} [Add α] [Sub α] [Mul α] [Div α] [NatCast α] [IntCast α]
+
+/-- a flexible change function called with an arbitrary shift argument: after `_catch_invalid_shift`, `Series.shift`
+dispatches on `isinstance(by, int)`; anything else is looked up as a method `_shift_<by>`, which exists for the four
+keywords only -- so a float-valued shift (`-1.0`) is rejected even when it is a negative whole number -/
+def changeArg (S : Sym α) (kind : ChangeKind) (a : ShiftArg) (s : Ser α) : R (Ser α) :=
+  match kind.fixedShift with
+  | some k => temporalChange S kind (.by_ k) s          -- annualised variants have no shift parameter
+  | none =>
+    if a.invalid then throw .badInput
+    else match a with
+      | .int k => temporalChange S kind (.by_ k) s
+      | .kw b => temporalChange S kind b s
+      | .float _ => throw .badInput
+      | .otherString => throw .badInput
+
+/-- a cumulation function called with an arbitrary shift argument: the loops hand the shift to `Period.shift` /
+`Span.shift`, which do plain arithmetic on a number: a negative whole-number float acts as the integer; a string that is
+not a keyword is rejected -/
+def cumArg (S : Sym α) (kind : CumKind) (a : ShiftArg) (initial : Option (Init α)) (span : Option Span)
+    (self : Ser α) : R (Ser α) :=
+  if a.invalid then throw .badInput
+  else match a with
+    | .int k => temporalCumulation S kind (.by_ k) initial span self
+    | .float q => temporalCumulation S kind (.by_ q.num) initial span self
+    | .kw b => temporalCumulation S kind b initial span self
+    | .otherString => throw .badInput
+
+end
+
+/-! ### Several variants -/
+
+/-- A series with `nv` variants (columns) sharing one row range. -/
+structure MSer (α : Type) where
+  freq : Freq
+  lo : Int
+  hi : Int
+  nv : Nat
+  val : Int → Nat → Option α
+
+section
+variable {α : Type}
+
+namespace MSer
+
+def get (m : MSer α) (t : Int) (j : Nat) : Option α :=
+  if m.lo ≤ t ∧ t ≤ m.hi ∧ j < m.nv then m.val t j else none
+
+def isEmpty (m : MSer α) : Bool := decide (m.hi < m.lo)
+
+/-- variant `j` as a one-variant series ON THE SHARED ROWS (that is what `self.span` is for every variant) -/
+def column (m : MSer α) (j : Nat) : Ser α :=
+  ⟨m.freq, m.lo, m.hi, fun t => if j < m.nv then m.val t j else none⟩
+
+/-- a row with an observation in at least one variant -/
+def rowMark (m : MSer α) (t : Int) : Option Unit :=
+  if (List.range m.nv).any (fun j => (m.val t j).isSome) then some () else none
+
+/-- `Series.trim()` with several variants: leading and trailing rows are dropped while they are missing in ALL variants -/
+def trim (m : MSer α) : MSer α :=
+  let n := (m.hi + 1 - m.lo).toNat
+  match Ser.firstSomeFrom m.rowMark m.lo n with
+  | none => { m with lo := 0, hi := -1 }
+  | some a =>
+    match Ser.lastSomeFrom m.rowMark m.hi n with
+    | none => { m with lo := 0, hi := -1 }
+    | some b => { m with lo := a, hi := b }
+
+/-- union of the rows of the non-empty series of a list -/
+def rowsUnion : List (Ser α) → Option (Int × Int)
+  | [] => none
+  | o :: os =>
+    match rowsUnion os with
+    | none => if o.isEmpty then none else some (o.lo, o.hi)
+    | some (a, b) => if o.isEmpty then some (a, b) else some (min a o.lo, max b o.hi)
+
+/-- the multi-variant series whose variant `j` is `outs[j]` (rows: the union, then trimmed) -/
+def ofSers (f : Freq) (outs : List (Ser α)) : MSer α :=
+  match rowsUnion outs with
+  | none => ⟨f, 0, -1, outs.length, fun _ _ => none⟩
+  | some (a, b) => trim ⟨f, a, b, outs.length, fun t j => (outs[j]?).bind (fun o => o.get t)⟩
+
+/-- columns given as cells from a common start (what `Series(start=…, values=2-D array)` builds, trim included) -/
+def ofColumns (f : Freq) (start : Int) (len : Nat) (cols : List (Array (Option α))) : MSer α :=
+  trim ⟨f, start, start + len - 1, cols.length, fun t j => ((cols[j]?).bind (fun c => c[(t - start).toNat]?)).join⟩
+
+def cells (m : MSer α) (j : Nat) : List (Option α) :=
+  (List.range (m.hi + 1 - m.lo).toNat).map (fun (i : Nat) => m.val (m.lo + (i : Int)) j)
+
+end MSer
+
+/-- `mapM` in the error monad, written out (first failure wins) -/
+def mapR {β γ : Type} (g : β → R γ) : List β → R (List γ)
+  | [] => pure []
+  | b :: bs =>
+    match g b with
+    | .error e => .error e
+    | .ok c =>
+      match mapR g bs with
+      | .error e => .error e
+      | .ok cs => .ok (c :: cs)
+
+variable [Add α] [Sub α] [Mul α] [Div α] [NatCast α] [IntCast α]
+
+/-- a change function on a series with several variants: numpy applies the lambda to whole 2-D blocks, i.e. variant by
+variant; every variant sees the shared rows -/
+def mchange (S : Sym α) (kind : ChangeKind) (a : ShiftArg) (m : MSer α) : R (MSer α) :=
+  match mapR (fun j => changeArg S kind a (m.column j)) (List.range m.nv) with
+  | .error e => .error e
+  | .ok outs => .ok (MSer.ofSers m.freq outs)
+
+def mconvert (S : Sym α) (c : ConvKind) (m : MSer α) : MSer α :=
+  MSer.ofSers m.freq ((List.range m.nv).map (fun j => convert S c (m.column j)))
+
+/-- a cumulation function on a change series with several variants and an `initial` carrying possibly fewer:
+variant `j` of the result is the cumulation of variant `j` of the change with the initial condition chosen by the
+broadcast rule `pickVariant` -/
+def mcum (S : Sym α) (kind : CumKind) (a : ShiftArg) (initials : List (Option (Init α))) (span : Option Span)
+    (m : MSer α) : R (MSer α) :=
+  match mapR (fun j => match pickVariant initials j with
+      | some ini => cumArg S kind a ini span (m.column j)
+      | none => .error .badInput) (List.range m.nv) with
+  | .error e => .error e
+  | .ok outs => .ok (MSer.ofSers m.freq outs)
+
+end
+
 /-! ### The two executable carriers of the driver -/
 
 /-- exact rationals: only the formulas without `log exp pw` are meaningful (the driver refuses the others) -/
